@@ -357,12 +357,25 @@ def check_property(prop, units, tier, seed, *, explanation, assumptions, stubs=(
             out.harness_errors.append("%s: %s" % (u.name, e))
         tags = set()
         n_obl = n_dis = n_sat = n_exc = n_abort = n_nontriv = n_reached = 0
+        n_unsup_replayed = 0
+        cands_real = []  # (label, inputs, exc) already observed on the real library
         cands = []  # (label, inputs)
         okpaths = []
         for r in a["results"]:
             tags.update(r["tags"])
             if r["status"] == "abort":
                 n_abort += 1
+                continue
+            if r["status"] == "unsupported":
+                # inconclusive symbolically; the concrete inputs of the path prefix are still run on the real library
+                msg = "%s: a path could not be finished symbolically: %s at %s" % (u.name, r["exc"][1], r["exc"][2])
+                if msg not in out.harness_errors:
+                    out.harness_errors.append(msg)
+                if u.real is not None and r["exc"][3] is not None and n_unsup_replayed < 25:
+                    n_unsup_replayed += 1
+                    failed, exc, obs, cx = run_real(u, r["exc"][3])
+                    for lab in _b.list(failed) + (["unexpected-exception:%s" % exc[0]] if exc and exc != "PathAbort" else []):
+                        cands_real.append((lab, r["exc"][3], exc))
                 continue
             if r["obligations"] or r["status"] == "exc":
                 n_reached += 1
@@ -391,6 +404,18 @@ def check_property(prop, units, tier, seed, *, explanation, assumptions, stubs=(
             for reg in u.regions:
                 if reg not in tags:
                     out.harness_errors.append("%s: vacuous - region %r has no witness" % (u.name, reg))
+        for lab, inp, exc in cands_real:
+            k = match_known(known, prop, u.name, lab, inp)
+            if k is not None:
+                if k["id"] not in seen_findings:
+                    seen_findings.add(k["id"])
+                    out.known.append(k)
+                continue
+            if (u.name, lab) in seen_findings:
+                continue
+            seen_findings.add((u.name, lab))
+            what = "%s / %s (on the real library, inputs of a path the symbolic side could not finish)%s" % (u.name, lab, (" (%s)" % exc[1]) if exc and exc != "PathAbort" else "")
+            out.violations.append({"unit": u.name, "label": lab, "inputs": enc_inputs(inp), "replay": write_replay(prop, u.name, lab, inp, what), "what": what})
         # candidates -> replay on the real library
         done = set()
         for label, inp in cands:
